@@ -149,7 +149,11 @@ func newNotificationsTracker(namespace string, shard int64, lastOffset int64, kv
 }
 
 func (nt *notificationsTracker) UpdatedCommitOffset(offset int64) {
+	// The offset must be updated while holding the lock the waiters check it under,
+	// otherwise a waiter can miss the broadcast between its check and its wait
+	nt.Lock()
 	nt.lastOffset.Store(offset)
+	nt.Unlock()
 	nt.cond.Broadcast()
 }
 
